@@ -256,7 +256,7 @@ func (ps *specParser) primary() *SExpr {
 			return &SExpr{Kind: SBool, Name: t.text, Pos: t.pos}
 		case "nil":
 			return &SExpr{Kind: SNil, Pos: t.pos}
-		case "old", "prev":
+		case "old", "prev", "entry1", "entry2", "entry3", "entry4":
 			ps.expect("(")
 			x := ps.expr(0)
 			ps.expect(")")
